@@ -241,7 +241,7 @@ def parse_const(ctx, txt, want_ty=None):
     if m:
         w, _ = INT_TYPES[m.group(2)]
         return z3.BitVecVal(int(m.group(1).replace("_", "")), w)
-    m = re.fullmatch(r"([iu](?:8|16|32|64|128|size))::(MAX|MIN)", t)
+    m = re.fullmatch(r"(?:core::num::<impl )?([iu](?:8|16|32|64|128|size))>?::(MAX|MIN)", t)
     if m:
         w, sg = INT_TYPES[m.group(1)]
         if m.group(2) == "MAX":
